@@ -207,6 +207,9 @@ def run(chk):
     n_fsm, n_ex, distinct = run_fsm(chk, build, factor)
     import c17_gate
     n_gate, distinct_gate = c17_gate.run_gate(chk, build, factor)
+    n_unit, distinct_unit = c17_gate.run_units(chk, build, factor)
+    n_gate += n_unit
+    distinct_gate |= distinct_unit
 
     chk.coverage["traces_validated_against_impl"] = n_fsm + n_gate
     chk.coverage["distinct_nontrivial"] = len(distinct) + len(distinct_gate)
